@@ -40,12 +40,8 @@ c12_unpoison_dead_stack(void *upto)
         real(arg);                                                             \
         c12_unpoison_dead_stack((char *)__builtin_frame_address(0) + 16);      \
     }
-/* before a call that never returns (ABT_self_exit): the frames of the unit
- * stay on the stack for ever; clear them from inside a leaf */
-#define C12_BEFORE_NORETURN() ((void)0)
 #else
 #define C12_UNIT_ENTRY(name, real)                                             \
     static void name(void *arg) { real(arg); }
-#define C12_BEFORE_NORETURN() ((void)0)
 #endif
 #endif
